@@ -50,6 +50,12 @@ CHECKS.update({
         note='Trusted: symnp engine (BLAS nrm2/dot and np.linalg.norm contract stubs, validated by concrete shadow runs), z3. Exact where weights are dyadic, 1e-9 box tolerance where sqrt(fraction) scalings enter. One known finding (cell volume exactly 1 with nodes on the boundary).',
         ref='DESIGN.md section 4 C02'),
 })
+CHECKS.update({
+    'C09': dict(
+        text='Forward-mode AD of the real functional code: every functional recipe (built-ins and derived: sums, scalar multiples of either sign, argument/vector scaling, translation, composition with operators, product, quotient, quadratic perturbation, Bregman distance, conjugates) is evaluated on dual numbers x_i + eps d_i, giving the exact directional derivative of the values; z3 decides equality with inner(f.gradient(x), d) in the space\'s own weighted inner product and with f.derivative(x)(d) for all x, d (kinks excluded as path conditions), and decides |grad f(x) - grad f(y)|^2 <= L^2 |x - y|^2, L >= 0 for all x, y whenever grad_lipschitz is finite. Rational identities are first posed with cleared denominators and with uninterpreted applications abstracted (pure NRA).',
+        note='Trusted: symnp engine incl. the calculus rules of sqrt/exp/log/pow on dual numbers, z3. Spaces of 2-4 entries (rn, array-weighted rn, uniform_discr, plain/weighted product spaces). One known finding (Huber on array-weighted spaces raises).',
+        ref='DESIGN.md section 4 C09'),
+})
 NOT_YET = {}
 
 
